@@ -30,7 +30,7 @@ def cases(tier, seed):
         out.append(
             {
                 "id": f"gn-{k}", "kind": "direct", "affine": rng.random() < 0.4, "D": D, "rows": rng.randint(1, D - 1),
-                "factor": rng.choice(["regular", "regular", "singular", "zero"]), "tol": 10 ** rng.uniform(-12, -4),
+                "factor": rng.choice(["regular", "regular", "singular", "zero", "badly_scaled"]), "tol": 10 ** rng.uniform(-12, -4),
                 "maxiter": rng.choice([1, 2, 3, 5, 10, 20, 50]), "eps": 10 ** rng.uniform(-3, -0.5),
                 "seedm": rng.randrange(10**9), "via_map": rng.random() < 0.2,
             }
@@ -55,6 +55,21 @@ def _problem(case):
     elif case["factor"] == "singular":
         rank = r.integers(1, D)
         L = r.normal(size=(D, rank)) @ r.normal(size=(rank, D)) * 0.5
+    elif case["factor"] == "badly_scaled":
+        # standard deviations spread over nine decades (all non-zero): J L has rows of very different size, so anything that
+        # squares the conditioning (normal equations, Gram matrices) loses the small directions (seed C19-s4)
+        stds = np.exp(r.uniform(np.log(1e-9), 0.0, size=D))
+        stds[r.integers(0, D)] = 1.0
+        L = np.diag(stds) @ (np.eye(D) + 0.2 * np.tril(r.normal(size=(D, D)), -1))
+        # make at least one constraint row see only the smallest-variance component plus a large-variance one
+        A = A.copy()
+        j_small, j_big = int(np.argmin(stds)), int(np.argmax(stds))
+        A[0, :] = 0.0
+        A[0, j_small] = 1.0
+        if A.shape[0] > 1:
+            A[1, :] = 0.0
+            A[1, j_big] = 1.0
+            A[1, j_small] = 0.5
     else:
         L = np.zeros((D, D))
 
@@ -121,7 +136,9 @@ def run_case(case):
         if int(stats["iters"]) != n_iter:
             viols.append(util.viol("stats_iters", f"stats['iters']={int(stats['iters'])} but the loop body ran {n_iter} times", tags=tags))
         fc = np.asarray(stats["final_constraint"], float)
-        if not np.allclose(fc, gx, rtol=1e-9, atol=1e-12 * (1 + np.max(np.abs(gx)))):
+        # g is a difference of terms of size |A||x| + |b|: two correct evaluations differ by a few ulp of those terms
+        term = float(np.max(np.abs(A) @ np.abs(x) + np.abs(b) + abs(eps) * np.einsum("kij,i,j->k", np.abs(Q), np.abs(x), np.abs(x))))
+        if not np.allclose(fc, gx, rtol=1e-9, atol=1e-12 * (1 + np.max(np.abs(gx))) + 1e-13 * term):
             viols.append(util.viol("stats_constraint", f"stats['final_constraint']={fc.tolist()} but g(x)={gx.tolist()}", tags=tags))
         fi = np.asarray(stats["final_increment"], float)
         if n_iter >= 1 and not np.allclose(fi, last_dx, rtol=1e-9, atol=1e-13 * (1 + np.max(np.abs(x)))):
@@ -146,20 +163,30 @@ def run_case(case):
         proj = JL @ np.linalg.pinv(JL, rcond=1e-10) @ gx if JL.size else 0 * gx
         outside = np.linalg.norm(gx - proj) / max(np.linalg.norm(gx), 1e-300)
         infeasible = bool(outside > 1e-6)
+        # conditioning of the linear problem the iteration solves: an SVD resolves small singular values only to
+        # eps * sigma_max *absolutely*, so the residual it can reach is ~ eps * cond(J L) * |g(m)| (finding D17)
+        sv = np.linalg.svd(JL, compute_uv=False) if JL.size else np.zeros(1)
+        sv_nz = sv[sv > 1e-14 * max(sv[0], 1e-300)] if sv.size else sv
+        cond_JL = float(sv_nz[0] / sv_nz[-1]) if sv_nz.size else 1.0
+        g0 = float(np.linalg.norm(g_np(m))) + 1e-300
+        at_svd_floor = bool(cond_JL > 1e3 and rms_g <= 50 * 2.0**-52 * cond_JL * max(1.0, g0))
+        tags = {**tags, "residual_at_svd_accuracy_floor": at_svd_floor}
         viols.append(
             util.viol(
                 "early_stop_unsatisfied",
                 f"stopped after {n_iter} < maxiter={case['maxiter']} iterations with rms(g)={rms_g:.3g} > tol={tol:.3g} "
                 f"(last increment rms {rms_dx:.3g}; part of g outside range(J L): {outside:.3g})",
                 tags={**tags, "infeasible_in_range": infeasible, "stats_truthful": not any(v["suboracle"].startswith("stats") for v in viols)},
-                witness={"D": case["D"], "rows": case["rows"], "rank_L": int(np.linalg.matrix_rank(L))},
+                witness={"D": case["D"], "rows": case["rows"], "rank_L": int(np.linalg.matrix_rank(L)), "cond_JL": cond_JL, "norm_g_at_mean": g0},
             )
         )
     obs["class_" + klass] = 1
 
     # ---- first-order optimality: x - m in range(L L^T J^T) up to the last increment -----------------------------
     disp = x - m
-    if np.linalg.norm(disp) > 0:
+    if case["factor"] == "badly_scaled":
+        obs["optimality_skipped_badly_scaled"] = 1  # the float64 range test below is itself unreliable at cond 1e9..1e18
+    elif np.linalg.norm(disp) > 0:
         B = L @ JL.T
         w, *_ = np.linalg.lstsq(B, disp, rcond=None) if B.size else (np.zeros(0),)
         resid = np.linalg.norm(B @ w - disp) if B.size else np.linalg.norm(disp)
